@@ -25,7 +25,7 @@ LAZY_OBS = ["row", "elem", "rowscol", "ell", "empty", "maskidx", "subset", "padd
 FLOOR_TAGS = ["lazy-recv:" + o for o in LAZY_OBS] + ["view:RaggedView", "view:RaggedView2", "lazy-operand:assign:u", "lazy-operand:sel:u", "lazy-operand:ufra:u", "lazy-operand:concat:w",
                                                      "depth>=3", "class:A", "class:B"]
 FLOOR_MONITORS = ["c06:L=M", "c06:F=M", "c06:L=F", "purity-tap", "inv:ragged"]
-N_RANDOM = {"quick": 3000, "thorough": 200000}
+N_RANDOM = {"quick": 9000, "thorough": 200000}
 
 
 def setup(lib):
